@@ -2,8 +2,12 @@ package main
 
 import (
 	"context"
+	"errors"
 	"fmt"
 	"strings"
+	"time"
+
+	"seata.apache.org/seata-go/pkg/protocol/branch"
 
 	"seata.apache.org/seata-go/pkg/tm"
 )
@@ -80,6 +84,7 @@ func genATCase(r *Rng, w *ATWorld, id string, o ATGenOpts) *ATCase {
 
 func runC01(c *Ctx) {
 	w := GetATWorld()
+	defer runC01Multi(c, w)
 	rng := NewRng(c.Seed)
 	n := c.Budget(300, 10000)
 	// branches whose images span the IN-list batch size of the image and undo queries (1000 keys)
@@ -142,6 +147,108 @@ func runC01(c *Ctx) {
 		for _, cl := range cs.Classes {
 			c.Out.Count("class." + cl)
 		}
+	}
+}
+
+// runC01Multi: several literal-only statements of one kind in ONE Exec (multiStatements=true), then a global
+// rollback.  The undo log of such an Exec merges the statements' images, which the model does not describe:
+// these cases are decided by the restore oracle alone.
+func runC01Multi(c *Ctx, w *ATWorld) {
+	rng := NewRng(c.Seed + 77)
+	n := c.Budget(40, 1500)
+	for i := 0; i < n; i++ {
+		r := rng.Fork()
+		cid := fmt.Sprintf("c01-m%d", i)
+		o := ATGenOpts{NullableVals: r.Chance(40), BigInts: r.Chance(10)}
+		cs := genATCase(r, w, cid, o)
+		sc := cs.Schema
+		if len(cs.Rows) < 3 {
+			cs.Rows = genRows(r, sc, 3+r.Intn(4))
+		}
+		if sc.Cols[sc.PK[0]].Typ != 'i' || !c.Want(cid) {
+			continue
+		}
+		var nonPK []int
+		for ci := range sc.Cols {
+			if !sc.isPK(ci) {
+				nonPK = append(nonPK, ci)
+			}
+		}
+		keyCond := func(row []ATVal) *ATCond {
+			cond := &ATCond{Op: "cmp:e", E: []*ATExpr{{K: 'c', Col: sc.PK[0]}, {K: 'l', Val: row[sc.PK[0]]}}}
+			for k := 1; k < len(sc.PK); k++ {
+				cond = &ATCond{Op: "A", A: cond, B: &ATCond{Op: "cmp:e", E: []*ATExpr{{K: 'c', Col: sc.PK[k]}, {K: 'l', Val: row[sc.PK[k]]}}}}
+			}
+			return cond
+		}
+		kind := byte('U')
+		if r.Chance(35) {
+			kind = 'D'
+		}
+		var parts []string
+		for k := 0; k < 2+r.Intn(2); k++ {
+			row := cs.Rows[r.Intn(len(cs.Rows))] // the same row may be hit by several statements
+			st := &ATStmt{Kind: kind, Where: keyCond(row)}
+			if kind == 'U' {
+				col := nonPK[r.Intn(len(nonPK))]
+				if sc.Cols[col].Typ == 'i' && r.Bool() {
+					st.Sets = []ATSet{{Col: col, Plus: col, E: &ATExpr{K: 'l', Val: ATVal{K: 'i', I: int64(1 + r.Intn(5))}}}}
+				} else {
+					st.Sets = []ATSet{{Col: col, Plus: -1, E: &ATExpr{K: 'l', Val: genVal(r, sc.Cols[col])}}}
+				}
+				if r.Chance(20) {
+					st.Where = &ATCond{Op: "cmp:e", E: []*ATExpr{{K: 'c', Col: sc.PK[0]}, {K: 'l', Val: ATVal{K: 'i', I: 777000 + int64(k)}}}} // selects no row
+				}
+			}
+			st.Spell = []int{0, 0, 1, 3}[r.Intn(4)]
+			sc.DBName = w.DBName
+			q, _, _ := st.Render(sc)
+			parts = append(parts, q)
+		}
+		w.SetUndoConfig(cs.Ser, cs.Comp, cs.Validate, cs.OnlyCare)
+		sc.Create(w.Eng)
+		for _, row := range cs.Rows {
+			w.Eng.InsertRows(sc.Table, toMemRow(row))
+		}
+		initial := w.DumpTable(sc.Table)
+		w.coord.ResetLog()
+		var execErr error
+		var xid string
+		crash := safeCall(func() {
+			xid, _ = InGlobalTx(cid, func(ctx context.Context) error {
+				_, execErr = w.DB.ExecContext(ctx, strings.Join(parts, "; "))
+				return errors.New("roll the global transaction back")
+			})
+		})
+		mid := w.DumpTable(sc.Table)
+		allOK := true
+		brs := w.coord.RegisteredBranches(xid)
+		for k := len(brs) - 1; k >= 0; k-- {
+			st, ok, _ := w.coord.RollbackBranch(w.coord.LastSession(), brs[k], 5*time.Second)
+			if !ok || st != branch.BranchStatusPhasetwoRollbacked {
+				allOK = false
+			}
+		}
+		final := w.DumpTable(sc.Table)
+		c.Out.Case(cid, "C01", "skip", "skip")
+		class := ""
+		switch {
+		case crash != "":
+			class = "crash"
+		case execErr != nil:
+			class = "multi_statement_exec_refused"
+		case allOK && final != initial:
+			class = "rollbacked_but_not_restored"
+		case !allOK:
+			class = "rollback_reported_failed"
+		case len(w.UndoLogRows()) > 0:
+			class = "undo_log_left"
+		}
+		c.Out.Oracle(cid, class == "", class, fmt.Sprintf("%s | err=%v initial=%s mid=%s final=%s crash=%s", strings.Join(parts, "; "), execErr, initial, mid, final, crash))
+		c.Out.Tag(cid, fmt.Sprintf("nontrivial=%d", b2i(mid != initial)))
+		c.Out.Count(fmt.Sprintf("multi.%c", kind))
+		w.Eng.Exec("DELETE FROM undo_log")
+		w.Eng.DropTable(sc.Table)
 	}
 }
 
